@@ -18,9 +18,9 @@ CFG = dict(
           "models are tied lock-step to the code by ./check CL and ./check SV (not by this check).",
     props="Props/C01.v",
     theorems=["C01_projection_client", "C01_projection_server", "C01_wire_c2s", "C01_wire_s2c", "C01_request_exact", "C01_server_reply_origin", "C01_pairing", "C01_exactly_once", "C01_no_fabrication", "C01_never_two", "C01_complete"],
-    imports=["Check.SysC", "Check.C01c"],
+    imports=["Check.SysC", "Check.C01c", "Check.C01a"],
     case_type="c01case",
-    find_bad_from="find_bad_from",
+    find_bad_from="find_bad_from_a",
     go_tags="sy",
     rigs=[dict(test="TestC01", timeout_quick=300, timeout_thorough=1500)],
     reason_text={"2": "pairing: a caller's result is not Ok(f(its own request)) (another call's reply, an error, an altered reply)",
